@@ -189,7 +189,43 @@ pub fn tr_method(cx: &mut Ctx, m: &ExprMethodCall, expected: Option<&Ty>) -> R<T
         }
         Ty::Struct(sn) => {
             let key = format!("{}::{}", sn, name);
-            if cx.idx.fns.contains_key(&key) {
+            if let Some(fi) = cx.idx.fns.get(&key).cloned() {
+                if fi.self_kind == SelfKind::MutRef {
+                    // `place.method(args)` with `&mut self`: hoist `let (r, obj') := T.method place args` and write back
+                    if fi.generic || fi.params.len() != m.args.len() {
+                        return Err(format!("call to &mut self method {}", key));
+                    }
+                    let mut ss = vec![recv.val()];
+                    for (a, (_, pty)) in m.args.iter().zip(fi.params.iter()) {
+                        ss.push(tr_expr(cx, a, Some(pty))?.val());
+                    }
+                    cx.deps.insert(key.clone());
+                    let tmp = cx.fresh("r");
+                    let obj = cx.fresh("o");
+                    let call = format!("({} (α := α) {})", fi.lean_name, ss.join(" "));
+                    let writeback = match strip(&m.receiver) {
+                        Expr::Path(p) if p.path.segments.len() == 1 => {
+                            let n = p.path.segments[0].ident.to_string();
+                            let ln = if n == "self" { "self".to_string() } else { cx.lookup(&n).ok_or("&mut call on unknown")?.0 };
+                            format!("let {} := {}\n", ln, obj)
+                        }
+                        Expr::Field(f) => {
+                            let base = match strip(&f.base) {
+                                Expr::Path(p) if p.path.segments.len() == 1 => p.path.segments[0].ident.to_string(),
+                                _ => return Err("&mut call on nested place".into()),
+                            };
+                            let ln = if base == "self" { "self".to_string() } else { cx.lookup(&base).ok_or("&mut call on unknown")?.0 };
+                            let fname = match &f.member {
+                                Member::Named(i) => i.to_string(),
+                                Member::Unnamed(i) => i.index.to_string(),
+                            };
+                            format!("let {} := {{ {} with f_{} := {} }}\n", ln, ln, fname, obj)
+                        }
+                        _ => return Err("&mut call on complex place".into()),
+                    };
+                    cx.prelude.push(format!("let ({}, {}) := {}\n{}", tmp, obj, call, writeback));
+                    return Ok(Tr::new(tmp, fi.ret.clone()));
+                }
                 return call_fn(cx, &key, Some(&recv), &m.args);
             }
             Err(format!("unknown method {}.{}", sn, name))
